@@ -210,3 +210,14 @@ Proof.
   { intros d Hd. apply existsb_exists. exists d. split; auto using byte_eqb_refl. }
   destruct Hcc as [->|[->| ->]]; rewrite (E _ Hc) in *; discriminate.
 Qed.
+
+(* "head" in lower case: mitmproxy upper-cases the method, the reference (RFC 9110 9.1) does not *)
+Lemma head_case_refuted : exists q r sz bl,
+  validate_headers (MResp r) = Ok tt /\ expected_http_body_size q (Some r) = Ok sz
+  /\ response_body_length (rq_method q) 200 (rs_version r) (rs_headers r) = Some bl /\ ~ size_agrees sz bl.
+Proof.
+  exists (mkReq [] 0 [x68;x65;x61;x64] [] [] [x2f] HTTP11 []),
+         (mkResp HTTP11 200 [x4f;x4b] [(CONTENT_LENGTH, [x35])]), (Some 0%Z), (BLLen 5).
+  split; [vm_compute; reflexivity|]. split; [vm_compute; reflexivity|]. split; [vm_compute; reflexivity|].
+  simpl. discriminate.
+Qed.
